@@ -93,8 +93,8 @@ static void pause_us(bool is_photon, uint64_t us) {
     if (is_photon) thread_usleep(us);
     else { struct timespec ts = {(time_t)(us / 1000000), (long)(us % 1000000) * 1000}; nanosleep(&ts, nullptr); }
 }
-template <typename F> static void wait_until(bool is_photon, F cond) {
-    while (!cond()) pause_us(is_photon, 100);
+template <typename F> static void wait_until(bool is_photon, F cond, uint64_t poll_us = 100) {
+    while (!cond()) pause_us(is_photon, poll_us);
 }
 
 // ------------------------------------------------------------------ thread stacks
@@ -102,7 +102,8 @@ template <typename F> static void wait_until(bool is_photon, F cond) {
 // posix_memalign + madvise + free per task, which costs tens of milliseconds per task under ASan/TSan (shadow poisoning,
 // quarantine, page faults) and is not the subject of this property. Stack source per execution: 0 photon's default allocator
 // (fewer tasks), 1 a per-OS-thread cache of mmap-ed regions kept by the harness (no synchronisation between vCPUs, so it adds
-// no happens-before edge), 2 photon's own pooled allocator.
+// no happens-before edge), 2 photon's own pooled allocator (per OS thread as well: every new pool starts with empty caches and
+// mallocs one stack per concurrently sleeping task again). The sanitizer flavors use 1 whenever tasks get threads.
 static int g_stack_mode = 0;
 struct StackCache {
     std::vector<void*> v;
@@ -123,6 +124,7 @@ struct CachingAllocator {
         if (size != DEFAULT_STACK_SIZE) return default_photon_thread_stack_dealloc(nullptr, ptr, size);
         auto& c = tl_stacks.v;
         if (c.size() < 128) c.push_back(ptr); else munmap(ptr, size);
+        vh::progress();         // a pool that is tearing its threads down is not stuck
     }
     size_t trim(size_t) { return 0; }
     StackPoolStats stats() { return {}; }
@@ -359,7 +361,7 @@ static void check_rec(Rec* r, const char* when) {
 
 static void destroy_pool(Sub& s, vh::Rng& rng, int round) {
     s.state.store(S_WAIT_SUBMITTERS, vh::MO);
-    wait_until(s.is_photon, [&] { return g_done_submitting.load(std::memory_order_acquire) >= (round + 1) * g_nsub; });
+    wait_until(s.is_photon, [&] { return g_done_submitting.load(std::memory_order_acquire) >= (round + 1) * g_nsub; }, 200);
     s.state.store(S_IDLE, vh::MO);
     // nobody else submits any more; the last accepted tasks: a final burst of (mostly sleeping) async tasks
     uint64_t fb = rng.chance(1, 8) ? 0 : rng.range(1, 2 * g_cap + 2 * g_nv + 2);
@@ -387,9 +389,9 @@ static void submitter_main(Sub& s) {
     for (int round = 0; round < g_rounds; ++round) {
         s.state.store(S_WAIT_ROUND, vh::MO);
         if (role(round, 0) == s.id) {
-            wait_until(s.is_photon, [&] { return g_round_closed.load(std::memory_order_acquire) >= round; });
+            wait_until(s.is_photon, [&] { return g_round_closed.load(std::memory_order_acquire) >= round; }, 500);
             create_pool(s, round);
-        } else wait_until(s.is_photon, [&] { return g_round_open.load(std::memory_order_acquire) > round; });
+        } else wait_until(s.is_photon, [&] { return g_round_open.load(std::memory_order_acquire) > round; }, 500);
         s.state.store(S_IDLE, vh::MO);
         if (s.id != 0) {
             program(s, rng, g_tasks_per_sub);
@@ -399,7 +401,7 @@ static void submitter_main(Sub& s) {
         if (role(round, 1) == s.id) destroy_pool(s, rng, round);
     }
     s.state.store(S_WAIT_ROUND, vh::MO);
-    wait_until(s.is_photon, [&] { return g_round_closed.load(std::memory_order_acquire) >= g_rounds; });
+    wait_until(s.is_photon, [&] { return g_round_closed.load(std::memory_order_acquire) >= g_rounds; }, 1000);
     s.state.store(S_FINISHED, vh::MO);
 }
 
@@ -445,7 +447,7 @@ int main(int argc, char** argv) {
     vh::Rng r(vh::args().xseed());
     g_nv = vh::args().geti("vcpus", r.pick({1, 2, 4}));
     int m = r.below(6);
-    g_mode = vh::args().geti("mode", m < 2 ? -1 : m < 4 ? 0 : r.pick({1, 2, 3, 8}));
+    g_mode = vh::args().geti("mode", m < 2 ? -1 : m < 4 ? 0 : r.pick({1, 2, 3, 8, 32}));
     g_ring = vh::args().geti("ring", r.pick({1, 2, 4, 64}));
     g_cap = 2; while ((int)g_cap < g_ring) g_cap *= 2;
     g_ev = vh::args().geti("ev", r.pick<uint64_t>({INIT_EVENT_NONE, INIT_EVENT_EPOLL, INIT_EVENT_EPOLL, INIT_EVENT_EPOLL_NG}));
@@ -458,16 +460,20 @@ int main(int argc, char** argv) {
     if (g_np * g_tpv + g_no == 0) g_no = 1;
     g_nsub = g_np * g_tpv + g_no;
     if (g_nsub >= MAXSUB || g_np > 8) vh::machinery_failure("too many submitters");
-    g_rounds = vh::args().geti("rounds", vh::args().thorough() ? 10 : 5);
-    uint64_t total = vh::args().geti("tasks", vh::args().thorough() ? 12000 : 3000);
+    g_rounds = vh::args().geti("rounds", vh::args().thorough() ? 8 : 5);
+    uint64_t total = vh::args().geti("tasks", vh::args().thorough() ? 6000 : 3000);
     if (vh::is_tsan()) total /= 4;
     total /= vh::args().shape_div();
     g_stack_mode = r.pick({0, 1, 1, 2, 2});
-    if (g_stack_mode == 0 && g_mode >= 0 && vh::is_asan()) g_stack_mode = 1;     // see "thread stacks" above
+    if (g_stack_mode != 1 && g_mode >= 0 && (vh::is_asan() || vh::is_tsan())) g_stack_mode = 1;     // see "thread stacks" above
     g_stack_mode = vh::args().geti("stacks", g_stack_mode);
     if (g_stack_mode == 0 && g_mode >= 0) total /= 4;
+    else if (vh::is_tsan() && g_mode >= 0) total /= 3;      // creating a TSan fiber per photon thread costs tens of milliseconds
     if (g_stack_mode == 1 && set_photon_thread_stack_allocator(g_ca) != 0) vh::machinery_failure("cannot install the stack allocator");
-    if (g_stack_mode == 2) use_pooled_stack_allocator();
+    if (g_stack_mode == 2) {
+        use_pooled_stack_allocator();
+        pooled_stack_trim_threshold(-1ULL);     // as perf_workpool does: keep every stack (a burst has > 128 tasks asleep at once)
+    }
     // photon::init() sets a process-wide plain bool (`reset_handle_registed`, photon.cpp) without synchronisation; the workers
     // of a pool call photon::init() concurrently. Unless --cfg warm=0, one init/fini on the main thread sets the flag before
     // any pool exists, so that TSan does not stop every multi-vCPU execution at that report (it is outside this property).
@@ -514,8 +520,10 @@ int main(int argc, char** argv) {
     std::vector<std::thread> os;
     for (int i = 0; i < g_no; ++i) os.emplace_back([i] { submitter_main(g_subs[1 + g_np * g_tpv + i]); });
     submitter_main(g_subs[0]);
+    vh::progress();
     for (auto& t : os) t.join();
     if (vth.joinable()) vth.join();
+    vh::progress();
 
     // end of the execution: nothing may have run a second time after its pool was destroyed
     uint64_t n = 0;
